@@ -325,6 +325,11 @@ def width_vectors(n, letters=(0.5, 1.0, 2.0)):
     return list(itertools.product(letters, repeat=n))
 
 
+# width vectors at unusual absolute scales and with nearly equal cells: the cell sizes differ by 1e-6..1e-12 in absolute value, or by a few
+# 1e-6 relatively - what default tolerances of "is it uniform?"-style tests would call equal
+ODD_SCALE_WIDTHS = [(1e-6, 2e-6, 5e-7), (2e3, 5e2, 1e3), (1.0, 1.000001, 0.999998), (5e-7, 5e-7, 1e-6, 1e-6)]
+
+
 def mesh_spec(spec):
     """('uni', n, length, x0) | ('ref', n, length, ratio, a, b) | ('w', widths..., ) | ('faces', [...])"""
     k = spec[0]
